@@ -6923,6 +6923,11 @@ class SFTPServerHandler(SFTPHandler):
             version = packet.get_uint32()
             rcvd_extensions: List[Tuple[bytes, bytes]] = []
 
+            if version < MIN_SFTP_VERSION:
+                await self._cleanup(SFTPBadMessage(
+                    f'Unsupported version: {version}'))
+                return
+
             if version == 3:
                 while packet:
                     name = packet.get_string()
